@@ -77,22 +77,22 @@ CHECKS = {
     design='DESIGN.md §5 C09',
     technique='TLA+ spec HodSelect.tla: TLC enumerates every abstract host (slice widths incl. empty slices x random number incl. 0 and every edge) with its acceptable outcomes and checks at-most-one / later-tracer / nestedness theorems; abstract hosts concretised on the real gen_gal_cat with widths from the package occupation functions',
     text='TLC enumerates all 2112 abstract hosts and proves AtMostOne, LaterNoChange and NestedFirst on the stacking rule. Every abstract host is realised three ways (midpoint, just beyond the lower edge, just inside the upper edge; edges and 0 exactly) on random masses / assembly-bias / conformity / rank terms, for centrals and satellites, all 7 tracer subsets, box observer and light-cone origin, RSD on/off (34 650 hosts quick): which host carries which tracer, that no host carries two, row order (centrals in halo order, then satellites in particle order), Ncent, host id and mass, positions and the velocity-bias and RSD formulas (line of sight only, wrap) are compared with the specification.',
-    note='Slice widths are computed with the package\'s own occupation functions using the argument assembly documented in the property; a random number exactly on an edge may select either neighbour; NFW satellite path excluded.'),
+    note='Slice widths are computed with the package\'s own occupation functions using the argument assembly documented in the property; a random number exactly on an edge may select either neighbour. The NFW satellite path is outside the property; it is specified separately (NfwSats.tla) and reported as extended coverage only.'),
  'C10': dict(
     design='DESIGN.md §5 C10',
     technique='TLA+ spec TwoPass.tla: TLC explores every interleaving of the two-pass count/fill with private prefix offsets and proves block / thread-split arithmetic for all sizes; gen_gal_cat compared bit-for-bit across 1..16 threads; schedule replay of fast_concatenate',
     text='TLC explores all interleavings of T<=3 (4) workers over every classification of <=5 (6) hosts: blocks partition the hosts, offsets stay in bounds, no slot written twice, result = hosts in index order (shared-counter and wrong-prefix variants rejected), and proves that rint(linspace) blocks partition 0..H (H<=80/300, T<=32) and that fast_concatenate\'s proportional split copies every index exactly once (N1,N2<=24/48, T<=16). gen_gal_cat is run with Nthread=1..16 on table sizes 0,1,2,5,15,17,33,101 (+more thorough) x tracer subsets x rsd/observer/ranks: every column, row order and Ncent bit-identical to one thread; fast_concatenate equals numpy for all small (N1,N2,T); conflict-directed and random schedules replayed on its real source with sentinel outputs.',
-    note='Compiled runs do not force interleavings; forced schedules use the interpreted source.'),
+    note='Compiled runs do not force interleavings; forced schedules use the interpreted source. Hosts the extended-coverage session specification HodSession.tla (NOTE only).'),
  'C12': dict(
     design='DESIGN.md §5 C12',
     technique='TLA+ spec HodStaging.tla: TLC checks, for every arrangement of halo ids over slab files and every flag combination, that the staging algorithm (concatenate, sortedness test, one permutation applied to a set of arrays) leaves every per-halo array aligned; arrangements replayed through the real AbacusHOD constructor on synthetic HDF5 slabs',
     text='TLC enumerates every ordering of <=4 (quick) / 5 (thorough) distinct ids cut into <=3 slab files x flags and proves Aligned / IdsIncreasing for the staging algorithm with the current list of permuted arrays (the original list is rejected as control). Each arrangement (a spread subset in the quick tier) is written as HDF5 subsample slabs + header; AbacusHOD is constructed with rotating flags (assembly bias, shear, ranks, exponential velocities) and with two chunks; every array of halo_data (13 arrays) is decoded to the halo id it describes and compared with hid row by row; particle host indices, host attributes and ranks are checked.',
-    note='Synthetic HDF5/ASDF inputs; attributes are injective functions of the id.'),
+    note='Synthetic HDF5/ASDF inputs; attributes are injective functions of the id. Hosts the extended-coverage specification PrepareSim.tla of the writer of these files (NOTE only).'),
  'C11': dict(
     design='DESIGN.md §5 C11',
     technique='TLA+ spec MemSafety.tla plus the InBounds invariants of the per-subsystem modules, checked by TLC at boundary constants; every boundary instantiation executed on the real kernels with bounds checking (NUMBA_BOUNDSCHECK=1 / interpreted) and in guarded arenas',
     text='TLC checks the index expressions of the _tsc_parallel pass loops, linear_interp (quotient rounding up at a knot) and getPointsOnSphere for all small sizes (the original expressions are flagged as controls) and re-runs the InBounds invariants of Cumsum, Partition, TwoPass, CatalogIndex (zipper), MassAssign and ModeBinning at boundary constants. 155 boundary instantiations of 30+ kernels (empty arrays, single elements, zero-particle halos, empty superslabs, 2-D CIC grid, positions on the domain boundaries and at BoxSize, offsets of half a cell, edges beyond Nyquist, pimax below the mesh, lookups one ulp inside the last knot, fewer items than threads, odd stripe counts) are executed compiled with NUMBA_BOUNDSCHECK=1 (serial kernels) or interpreted with numpy bounds checks (parallel kernels), and compiled as shipped inside guarded arenas; any bounds fault or touched guard is a violation.',
-    note='Interpreted execution stands in for compiled parallel kernels (same source). Documented domains as listed in the evidence assumptions; gen_sats_nfw/compute_fast_NFW not exercised in the quick tier.'),
+    note='Interpreted execution stands in for compiled parallel kernels (same source). Documented domains as listed in the evidence assumptions; gen_sats_nfw/compute_fast_NFW run interpreted with all tracers enabled (their profile parameters are only defined then); get_shear_nb does not compile with the installed numba and is not exercised.'),
  'C13': dict(
     design='DESIGN.md §5 C13', level='exploration',
     technique='TLA+ spec PowerSym.tla: symmetry generators as actions with the requirement Estimate\' = Estimate; TLC generates all action words (and checks the group facts); the words are replayed step by step on the real calc_power',
